@@ -14,8 +14,8 @@ package verifcheck
 import (
 	"fmt"
 	"os"
-	"strings"
 	"path/filepath"
+	"strings"
 	"sync/atomic"
 	"testing"
 	"time"
